@@ -108,6 +108,21 @@ def sampling_cfg(rng):
         c["ts"] = [x / f for x in c["ts"]]
         if rng.random() < 0.3:      # some requested times carry their own unit
             c["ts"] = ["%r s" % (x * f) if rng.random() < 0.5 else x for x in c["ts"]]
+    # single quantities stated in a unit that is not the script's (they are converted when handed to the engine)
+    fu = TIME_UNITS[u]
+    if rng.random() < 0.4:
+        v = rng.choice([x for x in ("s", "ms", "min", "ds") if x != u])
+        fv = TIME_UNITS[v]
+        which = rng.random()
+        if which < 0.5 and all(not isinstance(x, str) for x in c["ts"]):
+            c["ts"] = [x * fu / fv for x in c["ts"]]
+            c["ts_unit"] = v
+        if which > 0.3 and c.get("tmax", -1.0) >= 0:
+            c["tmax"] = "%r %s" % (c["tmax"] * fu / fv, v)
+        if rng.random() < 0.3:
+            c["dt"] = "%r %s" % (c["dt"] * fu / fv, v)
+        if rng.random() < 0.3:
+            c["interval"] = "%r %s" % (c["interval"] * fu / fv, v)
     return kind, c
 
 
